@@ -640,8 +640,8 @@ func (vm *vm) run() {
 		v := &InterruptedError{
 			iface: vm.interruptVal,
 		}
-		v.stack = vm.captureStack(nil, 0)
 		vm.interruptLock.Unlock()
+		v.stack = vm.captureStack(nil, 0)
 		panic(v)
 	}
 }
@@ -693,13 +693,35 @@ func (vm *vm) ClearInterrupt() {
 	atomic.StoreUint32(&vm.interrupted, 0)
 }
 
+// getFuncName returns the name of the native function whose frame starts at sb. It is called while a
+// stack trace is being captured (an exception is being created or thrown, the call stack has overflown,
+// an interrupt is being raised), so it must not run any user code: only an own data property holding a
+// string is used, accessors and objects are ignored.
 func getFuncName(stack []Value, sb int) unistring.String {
 	if sb > 0 {
 		if f, ok := stack[sb-1].(*Object); ok {
-			if _, isProxy := f.self.(*proxyObject); isProxy {
+			var name Value
+			switch o := f.self.(type) {
+			case *proxyObject:
 				return "proxy"
+			case *nativeFuncObject:
+				name = o.getOwnPropStr("name")
+			case *templatedFuncObject:
+				name = o.getOwnPropStr("name")
+			case *boundFuncObject:
+				name = o.getOwnPropStr("name")
+			case *wrappedFuncObject:
+				name = o.getOwnPropStr("name")
 			}
-			return nilSafe(f.self.getStr("name", nil)).string()
+			if p, ok := name.(*valueProperty); ok {
+				if p.accessor {
+					return ""
+				}
+				name = p.value
+			}
+			if s, ok := name.(String); ok {
+				return s.string()
+			}
 		}
 	}
 	return ""
